@@ -1105,14 +1105,28 @@ pub fn execute(scn: &Scn, opts: &ExecOpts) -> Outcome {
                 let sh = sh.clone();
                 let (off, put) = (*off, *put);
                 vec![Box::new(move || {
-                    if let RollerSpec::Fixed { base, .. } = &sh.model.lock().unwrap().roller.clone() {
+                    let roller = sh.model.lock().unwrap().roller.clone();
+                    if let RollerSpec::Fixed { base, .. } = &roller {
                         let p = sh.names.arch(base + off);
-                        if put {
+                        // patterns with the index in a directory: sometimes a *file* where that directory is needed
+                        let parent = p.parent().map(|x| x.to_path_buf());
+                        let dir_pattern = matches!(roller, RollerSpec::Fixed { pat: PatKind::Dir | PatKind::Repeated | PatKind::DirSplit, .. });
+                        if put && dir_pattern && off % 2 == 0 && parent.as_ref().map(|x| !x.exists()).unwrap_or(false) {
+                            let _ = fs::write(parent.as_ref().unwrap(), rmodel::OBSTACLE_MARK);
+                            kernel::note("obstacle.file", &sh.names.key(parent.as_ref().unwrap()));
+                            sh.sink.probe("obstacle_file_where_directory_needed", 1);
+                        } else if put {
                             let _ = fs::create_dir_all(p.join("keep"));
                             let _ = fs::write(p.join("keep").join("x"), b"x");
                             kernel::note("obstacle.put", &sh.names.key(&p));
+                            sh.sink.probe("obstacle_directory_at_archive_name", 1);
                         } else {
                             let _ = fs::remove_dir_all(&p);
+                            if let Some(par) = &parent {
+                                if fs::read(par).map(|b| b == rmodel::OBSTACLE_MARK).unwrap_or(false) {
+                                    let _ = fs::remove_file(par);
+                                }
+                            }
                             kernel::note("obstacle.remove", &sh.names.key(&p));
                         }
                     }
@@ -1237,7 +1251,7 @@ pub fn execute(scn: &Scn, opts: &ExecOpts) -> Outcome {
             let _ = fs::remove_dir_all(i2);
         }
     }
-    let rolls = sh.model.lock().unwrap().rolls_ok;
+    let rolls = sh.model.try_lock().map(|m| m.rolls_ok).unwrap_or(0);
     let (summary, now) = common::end(&k);
     let (v, probes) = sink.take();
     out.violations = v;
@@ -1318,6 +1332,11 @@ fn liveness_epilogue(k: &Arc<kernel::Kernel>, scn: &Scn, sh: &Arc<Shared>, live:
                 let p = sh.names.arch(i);
                 if p.is_dir() {
                     let _ = fs::remove_dir_all(&p);
+                }
+                if let Some(par) = p.parent() {
+                    if fs::read(par).map(|b| b == rmodel::OBSTACLE_MARK).unwrap_or(false) {
+                        let _ = fs::remove_file(par);
+                    }
                 }
             }
         }
